@@ -35,13 +35,16 @@ func (builder *Builder) OptionByName(name string) (Option, bool) {
 
 func (builder *Builder) DeepCopy() Builder {
 	clone := Builder{
-		For:         builder.For,
+		For:         builder.For.DeepCopy(),
 		Package:     builder.Package,
 		Name:        builder.Name,
 		Properties:  make([]StructField, 0, len(builder.Properties)),
 		Constructor: builder.Constructor.DeepCopy(),
 		Options:     make([]Option, 0, len(builder.Options)),
 		VeneerTrail: make([]string, 0, len(builder.VeneerTrail)),
+		Factories: tools.Map(builder.Factories, func(factory BuilderFactory) BuilderFactory {
+			return factory.DeepCopy()
+		}),
 	}
 
 	clone.VeneerTrail = append(clone.VeneerTrail, builder.VeneerTrail...)
